@@ -30,6 +30,7 @@ var (
 	c12pLeft     = sim.RegStat("probe:c12-datagram-after-leave-withheld")
 	c12pRebuf    = sim.RegStat("probe:c12-read-buffer-redesignated-while-pending")
 	c12pMoreSrc  = sim.RegStat("probe:c12-further-source-added-to-a-source-specific-membership")
+	c12pSpurious = sim.RegStat("probe:c12-readable-announced-with-nothing-to-read-while-a-read-is-pending")
 	c12pNested   = sim.RegStat("probe:c12-read-started-from-inside-a-read-completion")
 	c12pWrite    = sim.RegStat("probe:c12-write-observed-in-kernel")
 	c12pOpFail   = sim.RegStat("probe:c12-membership-call-failed-by-injection")
@@ -365,7 +366,11 @@ func (d *c12) startRead(s *c12Sock) {
 	}
 	if s.isPeer {
 		s.peer.AsyncRead(buf, func(err error, n int, from netip.AddrPort) {
-			record(err, n, from.Addr().As4(), int(from.Port()))
+			var ip [4]byte
+			if from.IsValid() && from.Addr().Is4() {
+				ip = from.Addr().As4()
+			}
+			record(err, n, ip, int(from.Port()))
 		})
 	} else {
 		s.pc.AsyncReadFrom(buf, func(err error, n int, from net.Addr) {
@@ -845,7 +850,15 @@ func runC12(c *Ctx, variant int) {
 	steps := w.Range(5, c.Deep(60))
 	for i := 0; i < steps; i++ {
 		s := d.socks[w.Choose(len(d.socks))]
-		switch w.Choose(12) {
+		switch w.Choose(13) {
+		case 12:
+			// the socket is announced readable and then has nothing (a datagram failing its checksum, select(2)
+			// BUGS; another handler of the same batch draining it): the pending read must stay intact
+			if s.reading && !s.closed {
+				w.Stat(c12pSpurious)
+				w.K.UDPSpurious(s.fd)
+				d.poll()
+			}
 		case 0, 1, 2:
 			d.membershipOp(s)
 		case 3:
